@@ -37,7 +37,12 @@ MANIFEST = dict(
         "psd_block that the epsilon-regression block matrix [[K,K],[K,K]] is PSD when K is, so all theorems above apply to them; "
         "warm starts: setInitialSolution_inv (the rebuilt gradient and edge gradient satisfy the invariant for any start vector "
         "in the box), warmStart_in_box and warmStart_sum_zero (the clipped and re-balanced start vector of the repaired "
-        "CSvmTrainer::optimize lies in the per-example box and, with bias, sums to exactly 0), warm_start_inv. "
+        "CSvmTrainer::optimize lies in the per-example box and, with bias, sums to exactly 0), warm_start_inv. End to end: "
+        "solve_acc (AccuracyReached => all variables active and checkKKT < eps in the returned state), solve_optimal_box / "
+        "csvm_nobias_optimal -- for a PSD kernel, whenever the model of the trainer without bias reports AccuracyReached the "
+        "returned coefficients are eps*sum(U-L)-optimal among ALL feasible vectors, with no hypothesis about the run (built on "
+        "C08 solve_inv_box); solve_optimal_svm_partial -- the same with bias / epsilon-regression / one-class against all "
+        "feasible vectors of the same coefficient sum, for runs whose gradients stay inside the sentinel range. "
         "Tie: the Float instance of the trainer model (problem set-ups of CSvmTrainer with one or class-specific C and "
         "per-example weights, cold and warm start incl. clipping and re-balancing, of EpsilonSvmTrainer (2n-variable block "
         "problem, offset loop) and of OneClassSvmTrainer (alpha = 1/n start, offset loop); solver loop; un-permutation; "
